@@ -1864,3 +1864,33 @@ M("C11", "window-scan-skipped-for-zero-buffer", SQL,
             return
         time_window = get_time_window(self.time_buffer, self)''', "R11.2",
   "traces of earlier runs stay when this run has no buffer (seed C11-f)")
+
+M("C07", "loop-out-sets-from-start-events", LEM,
+  "loop.end_events | loop.break_events, loop_event, loop_event_types",
+  "loop.start_events | loop.break_events, loop_event, loop_event_types",
+  "R7.8", "the loop node's successors are taken from the start events")
+M("C07", "start-edges-from-end-events", SGL,
+  "for in_edge in graph.in_edges(loop.start_events)",
+  "for in_edge in graph.in_edges(loop.end_events)", "R7.8",
+  "a local named after the start events is built from the end events")
+M("C01", "sequence-children-truncated", NODE,
+  "        elif logic_tree.operator == Operator.SEQUENCE:\n"
+  "            for child in logic_tree.children:\n",
+  "        elif logic_tree.operator == Operator.SEQUENCE:\n"
+  "            for child in logic_tree.children[1:]:\n", "R1.10",
+  "the first child of a SEQUENCE node is not translated")
+M("C01", "gate-children-filtered", NODE,
+  "            for child in logic_tree.children:\n"
+  "                logic_operator_node._load_logic_into_logic_list(\n"
+  "                    child, event_node_map, direction, root_node\n"
+  "                )\n",
+  "            for child in logic_tree.children:\n"
+  "                if child.label is None:\n"
+  "                    continue\n"
+  "                logic_operator_node._load_logic_into_logic_list(\n"
+  "                    child, event_node_map, direction, root_node\n"
+  "                )\n", "R1.10", "nested gates under a gate are skipped")
+M("C11", "fallback-when-data-seen", BASE,
+  "        if self._max_timestamp < self._min_timestamp:\n            return 9223372036854775807",
+  "        if self._max_timestamp >= self._min_timestamp:\n            return 9223372036854775807",
+  "R11.8", "the unbounded upper bound is returned once data was ingested")
